@@ -5,7 +5,9 @@
   desc : <rxpadding>/<type>.<vdim>.<mlen>.<name hex|->,…      (a lone `-` after the slash for a device without channels)
   calls (nx)  : C X S T s<c> u<q> e<cs>[!] d<cs>[!] N[!] v<val>:<cs>[!] D[!] W g<c>     (! = writenow)
   calls (comm): C X S T e<cs> d<cs> v<val>:<cs> A N D W
-  an optional last token `cut:<i>,<j>…` (environment events the model does not see, see `lifeOp`)
+  an optional last token `cut:<i>,<j>…` (environment events the model does not see, see `lifeOp`; the harness also
+  knows `wfail:<i>.<k>…` — an interface write that raises — on lines it judges by the oracle only and never sends here)
+  a channel name is any byte string: not valid UTF-8 → connect raises `unicode`; the reported name ends at the first NUL
   every call may carry the device's answers to the start/stop, divider and enable request it issues:
     <call>~<st>,<dv>,<en>      outcomes: a | x | l | n<r> (r ≠ 0; `n0` allowed for <st>)
   output per call, joined by " | ":
